@@ -25,6 +25,14 @@ ACTIONS = ["Load", "SameVar", "ChaseL", "ChaseOther", "Occurs", "Bind", "Decompo
 # development aid (never used by ./check runs of the tiers): VERIF_C12_FAST=1 skips the replay of the
 # exhaustive models and shrinks the seeded sample, for trying code mutations on a loaded machine
 FAST = os.environ.get("VERIF_C12_FAST") == "1"
+def vkey(prefix, rep):
+    """Stable key of a mismatch class: a cyclic result / non-termination is one class whatever the
+    specification's own reason; other classes are split by the specification's failure reason."""
+    if rep["kind"] in ("cyclic-result", "nontermination"):
+        return f"{prefix}:{rep['kind']}"
+    return f"{prefix}:{rep['kind']}:{rep['why']}"
+
+
 MISMATCH_IS_MACHINERY = {"spec-disagree", "bad-input", "bad-observation"}
 
 
@@ -63,7 +71,7 @@ def validate(ctx, obs, tag):
     import pool  # noqa: F401
 
     reports = {}
-    CH = 12000
+    CH = 40000
     for k in range(0, len(obs), CH):
         chunk = obs[k:k + CH]
         path = os.path.join(ctx.workdir, f"unify_obs_{tag}_{k}.json")
@@ -87,11 +95,13 @@ def validate(ctx, obs, tag):
     return reports
 
 
-def observe_all(problems, fn):
+def observe_all(problems, fn, parallel=True):
     import pool
     import ty_unify  # noqa: F401
 
-    CH = 200
+    if not parallel:  # a unify call costs microseconds; a process pool would only add start-up time
+        return fn(problems)
+    CH = 25
     jobs = [problems[i:i + CH] for i in range(0, len(problems), CH)]
     res = pool.map_jobs(fn, jobs, chunksize=1)
     return [o for chunk in res for o in chunk]
@@ -105,6 +115,11 @@ def run(ctx):
     cases = [] if FAST else enumerate_models(ctx)
     if not ctx.quick:
         ctx.coverage["actions_taken_in_models"] = check_action_coverage(ctx)
+        # a larger universe, algorithm against the closure oracle only (no replay)
+        r = ctx.tlc("Unify", "Unify_C.cfg", timeout=6000)
+        if not r.ok:
+            raise lib.Machinery(f"Unify_C.cfg: algorithm and closure oracle disagree:\n{r.error}")
+        ctx.log(f"Unify_C.cfg: {r.distinct} states, {r.wall:.0f}s")
     problems = []
     for c in cases:
         problems.append({"id": len(problems), "s": c["s"], "t": c["t"], "start": c["start"],
@@ -122,7 +137,7 @@ def run(ctx):
         seen.add(key)
         problems.append({"id": len(problems), **p, "origin": "seeded"})
     # 3. replay into the real unify
-    obs = observe_all(problems, TU.observe_chunk)
+    obs = observe_all(problems, TU.observe_chunk, parallel=False)
     ctx.log(f"{len(obs)} unify calls observed")
     # 4. TLC validates every observation
     reports = validate(ctx, obs, "u")
@@ -139,7 +154,7 @@ def run(ctx):
         if rep["steps"] >= 5:
             nontrivial += 1
         if rep["kind"] not in ("ok", "skip"):
-            kinds.setdefault(f"unify:{rep['kind']}:{rep['why']}", []).append(
+            kinds.setdefault(vkey("unify", rep), []).append(
                 {"problem": {k: p[k] for k in ("s", "t", "start")}, "observed": byid[p["id"]]["obs"],
                  "calls": byid[p["id"]]["calls"], "spec": {k: rep[k] for k in ("verdict", "why", "mgu", "steps")}})
     # vacuity guard: the replayed problems exercise every way the specification can answer
@@ -169,7 +184,7 @@ def run(ctx):
         if rep["kind"] in MISMATCH_IS_MACHINERY:
             raise lib.Machinery(f"{rep['kind']} on {json.dumps(o)}")
         if rep["kind"] not in ("ok", "skip"):
-            kinds.setdefault(f"call:{rep['kind']}:{rep['why']}", []).append(
+            kinds.setdefault(vkey("call", rep), []).append(
                 {"problem": {k: o[k] for k in ("s", "t", "start")}, "observed": o["obs"], "src": o["src"],
                  "spec": {k: rep[k] for k in ("verdict", "why", "mgu", "steps")}})
     if call_verdicts.get("accept/unif", 0) < n_call // 20 or call_verdicts.get("reject/none", 0) < n_call // 20:
